@@ -64,3 +64,27 @@ Example scan_example :
   find_on_disk (s2b "a//b/") (Some [(s2b "foo.0001.exr", KFile); (s2b "sub", KDir); (s2b "foo.0002.exr", KLinkFile); (s2b "l", KLinkDir)]) [] None
   = find_in_list [s2b "a/b/foo.0001.exr"; s2b "a/b/foo.0002.exr"] [].
 Proof. vm_compute. reflexivity. Qed.
+
+From GFS Require Import SpecListing AuditProofs.
+
+(** every path of every reported sequence lies directly under the directory and is one of its visible non-directory entries, each once *)
+Theorem reported_paths_are_exactly_the_visible_entries : forall path ents opts,
+  Forall (fun e => entry_name_ok (fst e)) ents ->
+  Forall (fun e => ~ In c_bslash (fst e)) ents ->
+  (forall n, ~ In (n, KLinkDangling) ents) ->
+  ~ In c_bslash (path_clean path) ->
+  path_clean path <> [c_dot] ->
+  NoDup (non_dirs ents) ->
+  Forall (fun n => name_ok (dir_prefix path ++ n)) (non_dirs ents) ->
+  existsb (Z.eqb K_SingleFiles) opts = true ->
+  let hidden := existsb (Z.eqb K_HiddenFiles) opts in
+  exists seqs, find_on_disk path (Some ents) opts None = Ok seqs /\
+    (forall q p, In q seqs -> In p (q_paths q) ->
+       exists n, In n (non_dirs ents) /\ p = dir_prefix path ++ n /\
+                 p = path_clean (dir_prefix path ++ n) /\ visible hidden p = true) /\
+    (forall n, In n (non_dirs ents) -> visible hidden (dir_prefix path ++ n) = true ->
+       exists q, In q seqs /\ In (dir_prefix path ++ n) (q_paths q)) /\
+    NoDup (flat_map q_paths seqs).
+Proof. exact scanned_paths_are_the_directory_entries. Qed.
+Print Assumptions reported_paths_are_exactly_the_visible_entries.
+
